@@ -4,6 +4,8 @@
 use crate::build::{build, Built};
 use crate::engine::{CheckResult, Failure, Prop, Rec, Tier};
 use crate::gen::{self, AbsGraph, GraphCase, Pres};
+#[allow(unused_imports)]
+use proptest::prelude::*;
 use crate::oracle::{self, Fams, Sem, ALL_SEMS, G};
 use crate::queries::{encodings_for, kind_for, Enc, Ext, LabelMap, SolverObj, Q};
 use crate::satwrap::{self, Shared};
@@ -31,6 +33,22 @@ pub struct Statics {
 pub enum StaticCase {
     Small(GraphCase),
     Big(crate::checks::metamorphic::MetaCase),
+    /// a disjoint union of many small components with interleaved ids: exact answers by composition
+    Composite(crate::checks::composite::CompositeCase),
+}
+
+fn composite_strategy(tier: Tier) -> BoxedStrategy<crate::checks::composite::CompositeCase> {
+    use proptest::collection::vec;
+    let kmax = tier.pick(30usize, 45usize);
+    let comp = prop_oneof![
+        4 => gen::graph_single(8),
+        3 => gen::graph_single(4),
+        1 => Just(AbsGraph { n: 1, att: vec![] }),
+        1 => Just(AbsGraph { n: 1, att: vec![(0, 0)] }),
+    ];
+    (vec(comp, 3..=kmax), vec(any::<u16>(), 32), any::<bool>(), vec(any::<u16>(), 2..=4), any::<u8>(), vec(any::<u16>(), 0..=3))
+        .prop_map(|(comps, order_keys, apx, queried, enc_pick, dup)| crate::checks::composite::CompositeCase { comps, order_keys, apx, queried, enc_pick, dup })
+        .boxed()
 }
 
 /// Does the hybrid encoder take its auxiliary-variable branch for some argument?
@@ -428,7 +446,7 @@ impl Prop for Statics {
     }
 
     fn rule(&self) -> String {
-        let common = "Frameworks are generated by construction from mixed shapes (random digraphs of six density classes, unions of 2-4 components, cycles with chords, symmetric clusters, fan-in shapes around the hybrid threshold, planted self-attackers, isolated arguments, repeated attack declarations) and presented through ArgumentSet::new_with_labels, the ICCMA'23 reader, the Aspartix reader, or an update history leaving sparse ids; every problem is run with every selectable encoding on a fresh solver object and compared with brute-force reference semantics. ";
+        let common = "Frameworks are generated by construction from mixed shapes (random digraphs of six density classes, unions of 2-4 components, cycles with chords, symmetric clusters, fan-in shapes around the hybrid threshold, planted self-attackers, isolated arguments, repeated attack declarations) and presented through ArgumentSet::new_with_labels, the ICCMA'23 reader, the Aspartix reader, or an update history leaving sparse ids; every problem is run with every selectable encoding on a fresh solver object and compared with brute-force reference semantics. About 1% of the cases (0.25% for C01) are disjoint unions of 3-30 (thorough: 45) small components, 20-200 arguments, declared in an interleaved order so that the components' ids are mixed, in ICCMA'23 or Aspartix text with some repeated attack lines: the reference answer is exact by composition (an extension of the union is a product of extensions of the components, for all seven semantics) although the framework is far beyond brute force. ";
         match self.which {
             Which::C01 => format!("{}A case (labelled attack multiset, presentation kind, semantics, encoder) is non-trivial when the framework has >=2 extensions under the semantics, or no stable extension, or >=2 components, or a self-attacker, or sparse ids, or the hybrid encoder takes its auxiliary branch; distinct = distinct such tuples (labelled graphs, not up to isomorphism).", common),
             Which::C02 | Which::C03 => format!("{}A case (graph, presentation kind, semantics, encoder, argument, certificate flag) is non-trivial when the argument is credulously but not skeptically accepted, or the semantics is PR/SST/STG with >=2 extensions, or ST has no extension in a framework of >=2 components, or (DS-PR) an admissible set attacks the argument; distinct = distinct tuples.", common),
@@ -451,9 +469,11 @@ impl Prop for Statics {
                 let small = (prop_oneof![3 => gen::graph_multi(nmax), 2 => gen::graph(nmax)], gen::pres(nmax))
                     .prop_map(|(g, pres)| StaticCase::Small(GraphCase { g, pres }));
                 let big = crate::checks::metamorphic::meta_strategy(tier).prop_map(StaticCase::Big);
-                prop_oneof![60 => small, 1 => big].boxed()
+                let composite = composite_strategy(tier).prop_map(StaticCase::Composite);
+                prop_oneof![120 => small, 2 => big, 1 => composite].boxed()
             }
-            _ => gen::graph_case(nmax).prop_map(StaticCase::Small).boxed(),
+            Which::C01 => prop_oneof![400 => gen::graph_case(nmax).prop_map(StaticCase::Small), 1 => composite_strategy(tier).prop_map(StaticCase::Composite)].boxed(),
+            _ => prop_oneof![100 => gen::graph_case(nmax).prop_map(StaticCase::Small), 1 => composite_strategy(tier).prop_map(StaticCase::Composite)].boxed(),
         }
     }
 
@@ -490,6 +510,7 @@ impl Prop for Statics {
                 }
                 return Ok(());
             }
+            StaticCase::Composite(cc) => return crate::checks::composite::run(self.which, cc, rec),
         };
         let g = G::new(case.g.n, &case.g.att_usize());
         let fams = Fams::new(&g);
